@@ -1,6 +1,7 @@
 """Rules anchored in src/store.rs and src/ttl.rs: C03 (TTL visibility), C05 (reclaim of expired
 entries), C09 (conditional writes), C04 (nothing is lost below capacity) and the store-level
 parts of C02 / C18 (same-key lookups, conflict isolation)."""
+import re
 from cachelib import *
 
 SM = "store::ShardedMap"
@@ -48,6 +49,32 @@ def accessor_facts(body):
     le = norm(body.call_expr(look[0][1], True))
     key = norm(body.call_args(look[0][1])[1])
     return shard, le, key, some_payload(le), lk[0], look[0]
+
+
+def check_blocking_shard_locks(rep, fl, rule="R02.1"):
+    """Every shard lock of ShardedMap is taken unconditionally: a `try_read` / `try_write` (or a timed variant) whose failure
+    is turned into `None` / `false` makes a lookup that races a writer of the same shard report a resident key as missing,
+    and a write that races a reader be skipped."""
+    facts = fl.facts
+    n = 0
+    bad = []
+    for b in facts.bodies:
+        if not strip_generics(b.raw["root"]).startswith(SM + "::") or not user_code(b):
+            continue
+        for bi, t in b.calls():
+            c = b.callee_of(t)
+            m = re.search(r"\b(RwLock|Mutex)(::<[^>]*>|<[^>]*>)?::(\w+)$", c)
+            if not m:
+                continue
+            n += 1
+            if m.group(3).startswith("try_"):
+                bad.append((b, t, m.group(3)))
+    for b, t, meth in bad:
+        rep.bad(rule, fl, b, "shard lock taken unconditionally", "%s takes its shard lock with `%s`: when another thread holds the lock the operation gives up and its caller sees "
+                "`not there` / `nothing to do` for an entry that is resident" % (short(b.spath), meth), loc=t["sp"])
+    if not bad:
+        rep.check(n >= 8, rule, fl, SM, "shard lock taken unconditionally", "all %d lock acquisitions in ShardedMap block until the lock is granted" % n,
+                  "only %d lock acquisitions found in ShardedMap (expected >= 8)" % n)
 
 
 def conflict_ok_formula(item, conflict=V("conflict")):
